@@ -818,7 +818,7 @@ pub fn main(opts: &Opts, tags_mode: bool) -> Report {
     }
 
     let mut rng = Rng::new(opts.shard_seed() ^ if tags_mode { 0xC02 } else { 0xC01 });
-    let total_ops = opts.budget(400_000, 60_000_000) as usize;
+    let total_ops = opts.budget(8_000_000, 400_000_000) as usize;
     let sizes = [PAGE, PAGE, 2 * PAGE, 3 * PAGE, 8 * PAGE];
     let mut ops_done = 0usize;
     let mut case_no = 0u64;
